@@ -378,6 +378,17 @@ impl Chitchat {
             return;
         }
 
+        if last_gc_version < node_state.last_gc_version() {
+            // The supplied state was captured before a tombstone GC that our copy already
+            // reflects: replacing the copy would move its GC watermark backwards.
+            warn!(
+                node_last_gc_version = node_state.last_gc_version(),
+                delta_last_gc_version = last_gc_version,
+                "attempted to reset node with a state older than our last GC version"
+            );
+            return;
+        }
+
         let monotonic_property_before = node_state.monotonic_property();
 
         // We make sure that the node is listed in the failure detector,
@@ -402,6 +413,12 @@ impl Chitchat {
             node_state.remove_key_value_internal(&key);
         }
         node_state.set_last_gc_version(last_gc_version);
+        // The supplied state is a snapshot taken at `max_version`. Its highest versions may
+        // have no key-value left (deleted, then garbage collected), in which case the loop
+        // above did not bring the copy's max version up to date.
+        if node_state.max_version() < max_version {
+            node_state.set_max_version(max_version);
+        }
 
         let monotonic_property_after = node_state.monotonic_property();
 
